@@ -114,7 +114,7 @@ class _RecCol:
         return SD.PV(z3.Const("cell!%s.%s" % (self.t.name, self.key), SD.PyVal))
 
 
-def run_creator(ctx, name, extra_kwargs=None):
+def run_creator(ctx, name, extra_kwargs=None, arg_override=None, std_for=None):
     fref = S.get_function(CR + ":" + name)
     ctx.use_function(fref)
     names, defaults, kwarg = params_of(fref)
@@ -134,7 +134,9 @@ def run_creator(ctx, name, extra_kwargs=None):
                  CR + ":_check_std_type": rec("_check_std_type"), CR + ":_check_branches": rec("_check_branches"),
                  CR + ":_check_multiple_junction_elements": rec("_check_multiple_junction_elements"),
                  CR + ":_add_multiple_branch_geodata": rec("write:geodata"),
-                 "pandapipes.std_types.std_types:load_std_type": rec("load_std_type", lambda: std),
+                 "pandapipes.std_types.std_types:load_std_type": (rec("load_std_type", lambda: std) if std_for is None else
+                                                                  (lambda ev, a, k: (cur["t"].append(("load_std_type", list(a), dict(k))),
+                                                                                     std_for(a[1]))[1])),
                  CR + ":_auto_ext_grid_type": rec("_auto_ext_grid_type", lambda: SD.PV(z3.Const("auto_type", SD.PyVal))),
                  CR + ":_auto_ext_grid_types": rec("_auto_ext_grid_types", lambda: SD.PV(z3.Const("auto_type", SD.PyVal))),
                  "pandapipes.std_types.std_types:create_pump_std_type": rec("write:std_types"),
@@ -169,7 +171,11 @@ def run_creator(ctx, name, extra_kwargs=None):
         args = [net] + [SD.PV(z3.Const("arg!" + p, SD.PyVal)) for p in names[1:]]
         if name in GEODATA_NONE and "geodata" in names:
             args[names.index("geodata")] = None
+        for k_, v_ in (arg_override or {}).items():
+            args[names.index(k_)] = v_() if callable(v_) else v_
         return args, dict(extra_kwargs or {})
+    if std_for is not None:
+        contracts["pandapipes.component_models.component_toolbox:retrieve_u"] = lambda ev, a, k: dict(a[0])
     ev = E.Evaluator(hooks={"global": glob}, contracts=contracts, max_paths=256)
     paths = ev.run_all(fref, mk)
     for p in paths:
@@ -716,3 +722,35 @@ def retrieve_u_contract(ctx):
                     and n.func.attr in ("update", "pop", "setdefault", "clear", "popitem"):
                 bad.append("line %d mutates the argument before it is copied: %s" % (n.lineno, ast.unparse(n)))
     ctx.decided("no-return-of-or-store-into-the-argument-before-the-copy", "frame", not bad, witness="; ".join(bad))
+
+
+
+@unit("C16", "create_pipes/std_type_list", functions=[CR + ":create_pipes"], engine="E5")
+def create_pipes_std_type_list(ctx):
+    """create_pipes with ONE STD TYPE PER PIPE (a list): every std-type column of row k carries the parameter of the k-th
+    named type -- the branch of create_pipes that the scalar evaluation does not reach (list of two symbolic names)"""
+    ctx.assume("A6")
+    s0, s1 = SD.PV(z3.Const("arg!std_type!0", SD.PyVal)), SD.PV(z3.Const("arg!std_type!1", SD.PyVal))
+    cols = ("inner_diameter_mm", "outer_diameter_mm", "k_mm", "u_w_per_m2k")
+
+    def entry(sv):
+        tag = "0" if sv.t.eq(s0.t) else ("1" if sv.t.eq(s1.t) else "x")
+        return {c: z3.Real("std!%s!%s" % (c, tag)) for c in cols}
+    fref, names, defaults, paths = run_creator(ctx, "create_pipes", arg_override={"std_type": lambda: [s0, s1]}, std_for=entry)
+    normal = [p for p in paths if p.exc is None]
+    ctx.decided("paths", "cover", len(normal) >= 1, witness=str([str(p.exc) for p in paths]))
+    for kx, p in enumerate(normal):
+        tr = p.args[0][0].trace
+        sets = [t for t in tr if t[0] == "_set_multiple_entries"]
+        checks = [t for t in tr if t[0] == "_check_std_type"]
+        ctx.decided("every-named-type-is-checked#%d" % kx, "ensures",
+                    len(checks) == 2 and checks[0][1][1] is s0 and checks[1][1][1] is s1, witness=str(checks))
+        ctx.decided("one-bulk-write#%d" % kx, "cover", len(sets) == 1, witness=str(len(sets)))
+        if len(sets) != 1:
+            continue
+        kw = sets[0][2]
+        for c in cols:
+            v = kw.get(c)
+            ok = isinstance(v, list) and len(v) == 2 and all(is_z3(x) for x in v) and \
+                v[0].eq(entry(s0)[c]) and v[1].eq(entry(s1)[c])
+            ctx.decided("%s-of-row-k-is-that-of-the-k-th-type#%d" % (c, kx), "schema", ok, witness=repr(v))
